@@ -248,6 +248,16 @@ func hasTiedKeys(v reflect.Value) bool {
 				return true
 			}
 		}
+	case reflect.Func:
+		// a tuple func marshals the values it returns
+		if v.IsNil() {
+			return false
+		}
+		for _, o := range accessible(v).Call(nil) {
+			if hasTiedKeys(o) {
+				return true
+			}
+		}
 	case reflect.Struct:
 		if v.Type() == timeType {
 			return false
